@@ -950,6 +950,40 @@ class ConstEval:
                 import math
 
                 return math.sqrt(self.eval(node.args[0], m, env))
+            # a function of the repository that only returns an expression of its parameters: evaluated with the arguments bound
+            if r and r[0] == "func" and not node.keywords and not any(isinstance(a, ast.Starred) for a in node.args):
+                fn = r[2]
+                body = [s_ for s_ in fn.body if not (isinstance(s_, ast.Expr) and isinstance(s_.value, ast.Constant) and isinstance(s_.value.value, str))]
+                ps = [a.arg for a in fn.args.args]
+                if len(body) == 1 and isinstance(body[0], ast.Return) and body[0].value is not None and len(ps) == len(node.args) and not fn.args.vararg and not fn.args.kwarg \
+                        and not fn.decorator_list and getattr(self, "_call_depth", 0) < 6:
+                    self._call_depth = getattr(self, "_call_depth", 0) + 1
+                    try:
+                        return self.eval(body[0].value, r[1], {p_: self.eval(a_, m, env) for p_, a_ in zip(ps, node.args)})
+                    finally:
+                        self._call_depth -= 1
+        # Cls.method() for a classmethod / staticmethod of the repository that only returns an expression (e.g. `return len(bytes(cls()))`)
+        if isinstance(node.func, ast.Attribute) and not node.keywords and not any(isinstance(a, ast.Starred) for a in node.args):
+            c = self.repo.resolve_class(m, node.func.value)
+            if c is not None:
+                rr = self.repo.lookup(c, node.func.attr)
+                if rr is not None:
+                    fn = rr[1]
+                    decs = {(dotted(d) or "").split(".")[-1] for d in fn.decorator_list}
+                    body = [s_ for s_ in fn.body if not (isinstance(s_, ast.Expr) and isinstance(s_.value, ast.Constant) and isinstance(s_.value.value, str))]
+                    ps = [a.arg for a in fn.args.args]
+                    if decs in ({"classmethod"}, {"staticmethod"}) and len(body) == 1 and isinstance(body[0], ast.Return) and body[0].value is not None and getattr(self, "_call_depth", 0) < 6:
+                        bound = {}
+                        if "classmethod" in decs:
+                            bound[ps[0]] = self.eval(node.func.value, m, env)
+                            ps = ps[1:]
+                        if len(ps) == len(node.args):
+                            bound.update({p_: self.eval(a_, m, env) for p_, a_ in zip(ps, node.args)})
+                            self._call_depth = getattr(self, "_call_depth", 0) + 1
+                            try:
+                                return self.eval(body[0].value, rr[0].module, bound)
+                            finally:
+                                self._call_depth -= 1
         raise Unknown(f"call {src(node)}")
 
 
